@@ -216,7 +216,10 @@ pub fn c05_world(seed: u64, corpus: &[Program]) -> (World, Dims) {
         SchedSpec::Sequential
     };
     // ambient verbosity of the process (RUST_LOG): mostly the default, sometimes Debug or Trace
-    let log_level = if r.chance(1, 16) { 4 + r.below(2) as u8 } else { 3 };
+    // the Debug/Trace records of a 300 KB program are hundreds of megabytes of formatted syntax trees: big jobs
+    // stay at Info
+    let any_big = jobs.iter().any(|j| j.source.0.len() > 32 * 1024);
+    let log_level = if r.chance(1, 16) && !any_big { 4 + r.below(2) as u8 } else { 3 };
     (World { prop: "C05".into(), seed, threads, jobs, sched, note: format!("{:?}", d), log_level }, d)
 }
 
@@ -331,7 +334,11 @@ pub fn c16_enum_world(corpus: &[Program], pi: usize, kind: &str, idx: usize) -> 
     let f = faults::nth(kind, &p.source, idx);
     let mut w = World::solo("C16", damaged_job(p, &[f]));
     w.note = format!("enumerated single fault: program {} kind {} index {}", pi, kind, idx);
-    if idx % 3 == 2 {
+    if kind == "bank_boundary" {
+        // each retyped bank number under each bankswitching scheme of the reference builder (and under none)
+        w.jobs[0].args = option_vector(32 * (idx % faults::BANK_SCHEMES) + pi % 32, p);
+        w.note.push_str(" (scheme option vector)");
+    } else if idx % 3 == 2 {
         // every third fault of a kind meets a rotating option vector instead of the program's own options
         // (-O0..3 x --insert-code x -W all x --fsigned_char), so that option-only code paths see damaged input too
         w.jobs[0].args = option_vector((idx / 3 + pi) % OPTION_VECTORS, p);
@@ -528,7 +535,7 @@ pub fn c16_world(seed: u64, corpus: &[Program]) -> World {
     if r.chance(1, 4) {
         w.threads[0].hash_key = to_hex(&r.bytes16());
     }
-    if r.chance(1, 24) {
+    if r.chance(1, 24) && w.jobs.iter().all(|j| j.source.0.len() <= 32 * 1024) {
         w.log_level = 4 + r.below(2) as u8;
     }
     w.seed = seed;
